@@ -24,6 +24,8 @@ pub enum Delivery {
     Segments(Vec<usize>),
     /// one byte every n milliseconds
     Trickle(u64),
+    /// one byte per write, 150 us apart
+    ByteWise,
 }
 
 #[derive(Clone, Debug, Serialize, Deserialize, PartialEq)]
@@ -37,6 +39,8 @@ pub enum Upstream {
     AcceptClose,
     /// send part of the bytes, then stay silent with the connection open
     StallAfter { wire: Vec<u8>, at: usize },
+    /// accept the connection and never read from it (a request larger than the socket buffers cannot be written)
+    NeverReads,
 }
 
 #[derive(Clone, Debug, Serialize, Deserialize)]
@@ -140,6 +144,13 @@ pub fn run_case(c: &Case, ip: &str) -> Outcome {
             if matches!(up, Upstream::AcceptClose) {
                 return;
             }
+            if matches!(up, Upstream::NeverReads) {
+                let t = Instant::now();
+                while !release.load(Ordering::SeqCst) && t.elapsed() < Duration::from_secs(60) {
+                    std::thread::sleep(Duration::from_millis(5));
+                }
+                return;
+            }
             let r = read_request(&mut sock, Duration::from_secs(10));
             *received.lock().unwrap() = Some(r);
             let _ = sock.set_nodelay(true);
@@ -169,6 +180,14 @@ pub fn run_case(c: &Case, ip: &str) -> Outcome {
                                 p += n;
                                 k += 1;
                                 std::thread::sleep(Duration::from_millis(2));
+                            }
+                        }
+                        Delivery::ByteWise => {
+                            for b in &wire {
+                                if sock.write_all(&[*b]).is_err() || release.load(Ordering::SeqCst) {
+                                    break;
+                                }
+                                std::thread::sleep(Duration::from_micros(150));
                             }
                         }
                         Delivery::Trickle(ms) => {
@@ -215,6 +234,7 @@ pub fn run_case(c: &Case, ip: &str) -> Outcome {
     let trickle_allowance = match &c.upstream {
         Upstream::Send { wire, delivery: Delivery::Trickle(ms) } => Duration::from_millis(ms * wire.len() as u64 + 500),
         Upstream::Send { wire, delivery: Delivery::Segments(_) } => Duration::from_millis(3 * wire.len().min(400) as u64 + 200),
+        Upstream::Send { wire, delivery: Delivery::ByteWise } => Duration::from_millis(wire.len() as u64 + 500),
         _ => Duration::ZERO,
     };
     let deadline = effective_timeout + trickle_allowance + Duration::from_secs(2);
@@ -235,6 +255,7 @@ pub fn run_case(c: &Case, ip: &str) -> Outcome {
         Upstream::Silence => "accept-then-silence",
         Upstream::AcceptClose => "accept-then-close",
         Upstream::StallAfter { .. } => "stall-mid-response",
+        Upstream::NeverReads => "accept-but-never-read",
     };
     if hung {
         fails.push(fail!(
@@ -245,6 +266,7 @@ pub fn run_case(c: &Case, ip: &str) -> Outcome {
             match &c.upstream {
                 Upstream::Silence => "accepts the connection, reads the request and then stays silent".to_string(),
                 Upstream::StallAfter { at, .. } => format!("sends {} bytes of its response and then stalls", at),
+                Upstream::NeverReads => format!("accepts the connection but never reads the {}-byte request", c.req.render().len()),
                 _ => what.to_string(),
             }
         ));
@@ -264,7 +286,7 @@ pub fn run_case(c: &Case, ip: &str) -> Outcome {
     // ---- what must the answer be?
     let mut class = what;
     match &c.upstream {
-        Upstream::Refused | Upstream::Silence | Upstream::AcceptClose | Upstream::StallAfter { .. } => {
+        Upstream::Refused | Upstream::Silence | Upstream::AcceptClose | Upstream::StallAfter { .. } | Upstream::NeverReads => {
             if status != 502 {
                 fails.push(fail!(format!("not-502:{}", what), "upstream {} but the proxy answered {} instead of 502", what, status));
             }
@@ -335,7 +357,7 @@ pub fn run_case(c: &Case, ip: &str) -> Outcome {
         }
     }
     // ---- what did the upstream receive?
-    if !matches!(c.upstream, Upstream::Refused | Upstream::AcceptClose) {
+    if !matches!(c.upstream, Upstream::Refused | Upstream::AcceptClose | Upstream::NeverReads) {
         match received.lock().unwrap().take() {
             None => fails.push(fail!("upstream-got-nothing", "the upstream accepted a connection but received no request")),
             Some(Err(e)) => fails.push(fail!("upstream-request-invalid", "the request relayed upstream is not valid HTTP: {}", e)),
@@ -488,7 +510,7 @@ fn report(ctx: &Ctx, c: &Case, o: Outcome, kind: &str) -> bool {
         return true;
     }
     let nt = !o.class.starts_with("valid:content-length");
-    ctx.case(hash_of(&format!("{:?}", c)), nt, &[&format!("upstream:{}", o.class), if c.via_handler.is_some() { "via:proxy_handler" } else { "via:proxy_request" }]);
+    ctx.case(hash_of(&(c.req.render(), format!("{:?}", c.upstream).chars().take(4000).collect::<String>(), c.timeout_ms, &c.via_handler)), nt, &[&format!("upstream:{}", o.class), if c.via_handler.is_some() { "via:proxy_handler" } else { "via:proxy_request" }]);
     ctx.sample(&format!("upstream:{}", o.class), || {
         json!({"upstream": match &c.upstream { Upstream::Send { wire, delivery } => json!({"sends": show(&wire[..wire.len().min(200)]), "total": wire.len(), "delivery": delivery}), other => json!(format!("{:?}", other)) }, "timeout_ms": c.timeout_ms, "request": show(&c.req.render()[..c.req.render().len().min(120)])})
     });
@@ -565,7 +587,7 @@ fn faults_and_random(ctx: &Ctx) {
             proptest::collection::vec(any::<u8>(), 0..80),
         ];
         let upstream = prop_oneof![
-            5 => (small_resp(), any::<bool>(), prop_oneof![3 => Just(Delivery::Whole), 2 => proptest::collection::vec(1usize..40, 1..12).prop_map(Delivery::Segments)]).prop_map(|(s, cd, d)| {
+            5 => (small_resp(), any::<bool>(), prop_oneof![3 => Just(Delivery::Whole), 2 => proptest::collection::vec(1usize..40, 1..12).prop_map(Delivery::Segments), 2 => Just(Delivery::ByteWise)]).prop_map(|(s, cd, d)| {
                 let cd = cd && status_has_body(s.status);
                 let wire = if cd { render_close_delimited(&s) } else { s.render() };
                 (Upstream::Send { wire, delivery: d }, Some(s), cd)
@@ -595,7 +617,7 @@ fn faults_and_random(ctx: &Ctx) {
                     return Vec::new();
                 }
                 let nt = !o.class.starts_with("valid:content-length");
-                ctx.case(hash_of(&format!("{:?}", c)), nt, &[&format!("upstream:{}", o.class), if c.via_handler.is_some() { "via:proxy_handler" } else { "via:proxy_request" }]);
+                ctx.case(hash_of(&(c.req.render(), format!("{:?}", c.upstream).chars().take(4000).collect::<String>(), c.timeout_ms, &c.via_handler)), nt, &[&format!("upstream:{}", o.class), if c.via_handler.is_some() { "via:proxy_handler" } else { "via:proxy_request" }]);
                 ctx.sample(&format!("upstream:{}", o.class), || json!({"upstream": format!("{:?}", c.upstream).chars().take(200).collect::<String>(), "request": show(&c.req.render()[..c.req.render().len().min(100)])}));
                 o.fails
             },
@@ -626,6 +648,16 @@ fn stalls(ctx: &Ctx) {
         };
         let via = if k % 6 == 5 { Some("/*".to_string()) } else { None };
         cases.push(Case { req, upstream, timeout_ms: 300, spec: Some(spec), close_delimited: false, via_handler: via });
+    }
+    // an upstream that accepts and never reads, with a request body far larger than the loopback socket buffers
+    for k in 0..ctx.tier.pick(2usize, 8usize) {
+        let mut req = small_req().new_tree(&mut runner).unwrap().current();
+        let n = (24usize << 20) + k * 4096;
+        req.headers.retain(|h| !h.name.eq_ignore_ascii_case("content-length"));
+        req.method = "POST".into();
+        req.body = Some(vec![b'x'; n]);
+        req.headers.push(HeaderSpec { name: "Content-Length".into(), ows: " ".into(), value: n.to_string() });
+        cases.push(Case { req, upstream: Upstream::NeverReads, timeout_ms: 500, spec: None, close_delimited: false, via_handler: None });
     }
     let next = std::sync::atomic::AtomicUsize::new(0);
     crate::engine::shards(12, |sh| loop {
